@@ -2870,15 +2870,27 @@ func (dsc *dataStoreCommand) setMove(source, destination, memberName string) (ou
 		return
 	}
 
-	added, wrongType := dsc.setAddWorkerUnlocked(destination, []string{memberName}, SET_NOT_EXIST)
+	if source == destination {
+		// moving a member onto its own set changes nothing
+		output.data = respInt(1)
+		return
+	}
+
+	_, wrongType := dsc.setAddWorkerUnlocked(destination, []string{memberName}, SET_NOT_EXIST)
 	if wrongType {
 		output.data = wrongTypeError
 		return
 	}
 
 	ss.remove(memberName)
+	dsc.setDirty()
+	if ss.count == 0 {
+		// a set never exists empty
+		dsc.ds.data.remove(source)
+	}
 
-	output.data = respInt(added)
+	// the member was in the source and is now (only) in the destination
+	output.data = respInt(1)
 	return
 }
 
